@@ -697,7 +697,7 @@ Proof.
   intros Hlen Henc. unfold git_fsck_tree. rewrite (encode_git_parse es b Hlen Henc).
   unfold encode in Henc. destruct (v_invalid (validate es)) eqn:V; [discriminate|]. clear Henc.
   pose proof (validate_all_ok es V) as Hok. pose proof (validate_go_chain es [] None _ V) as Hch.
-  unfold fsck_entries.
+  unfold fsck_entries, fsck_with.
   assert (OF : order_flags None (map raw_of es) [] false false = (false, false)).
   { destruct es as [|e es]; [reflexivity|]. cbn [map order_flags raw_of r_mode r_name].
     inversion Hok as [|? ? He Hes]; subst. cbn [chain_ok] in Hch. destruct Hch as (_ & _ & Hc).
